@@ -19,16 +19,14 @@ LEVEL = "exploration"
 MODES = ["O0"]
 TIERS = {"quick": {"runs": 6000, "wall": 55}, "thorough": {"runs": 60000, "wall": 1500}}
 RULE = ("plan = seeded directory (0..12 well-formed PELs, name styles bmc/plain/numeric/mixed, optional "
-        "extensions) + option set + -r/-e/-x/-P + one readdir permutation per invocation (-n also with -x; in 12% of the "
-        "plans one mode is run once more while opening one PEL fails with EIO/EMFILE/EACCES: an answer given with exit 0 "
-        "must equal the undisturbed answer); "
+        "extensions) + option set + -r/-e/-x/-P + one readdir permutation per invocation (-n also with -x); "
         "distinct_nontrivial counts distinct abstract traces (number of files, number selected, option set, "
         "reverse, extension filter, hex, readdir-permutation class per invocation) among plans with >= 2 files.")
 COMPONENTS = {"real": ["pel.peltool.peltool.main() in-process, all decoders"],
-              "stub": ["directory enumeration order (SimFS)", "transient open() errors on input files (SimFS)", "stdout capture", "fake pel_registry (message registry / component names) in part of the runs"]}
+              "stub": ["directory enumeration order (SimFS)", "stdout capture", "fake pel_registry (message registry / component names) in part of the runs"]}
 ASSUMPTIONS = ["directories contain only well-formed PELs with distinct entry ids (precondition of the property)",
                "which PELs an option set selects is not judged here (C07) except under -E, where every PEL must appear"]
-PROBES = ["read_fault_fired", "pel_over_2KiB", "perm_not_sorted", "reverse", "ext_filter", "hex", "selected_lt_total", "empty_dir", "message_in_list"]
+PROBES = ["pel_over_2KiB", "perm_not_sorted", "reverse", "ext_filter", "hex", "selected_lt_total", "empty_dir", "message_in_list"]
 
 
 def gen_plan(rng, tier, run):
@@ -72,11 +70,6 @@ def gen_plan(rng, tier, run):
                          "flags": [x for x in ("-r", "-x") if rng.random() < 0.3], "pos": rng.randrange(3)} for _ in range(rng.choice([0, 0, 1, 2]))],
             "orders": {k: {"policy": rng.choice(["perm", "perm", "perm", "asc", "desc"]), "key": rng.randrange(1 << 30)}
                        for k in ("n", "l", "a", "lx", "ax")}}
-    if files and rng.random() < 0.12:
-        # one of the three modes is run once more while opening one of the PEL files fails (transient EIO / EMFILE):
-        # the tool may give up, but an answer it gives with exit status 0 must still be the answer
-        plan["read_fault"] = {"mode": rng.choice(["n", "l", "l", "a"]), "nth": rng.randrange(len(files)),
-                              "errno": rng.choice(["EIO", "EMFILE", "EACCES"])}
     return plan
 
 
@@ -146,21 +139,7 @@ def execute(plan):
             res["ax"] = w.run(base + ["-a", "-x"] + rev, order=plan["orders"]["ax"])
             # the count "with --hex" is still the count: the same JSON object and number as without it
             res["nx"] = w.run(base + ["-n", "-x"] + rev, order=plan["orders"]["n"])
-        faulted = None
-        if plan.get("read_fault"):
-            rf = plan["read_fault"]
-            faulted = w.run(base + ["-" + rf["mode"]] + rev, order=plan["orders"][rf["mode"]], stdout_encoding=enc,
-                            faults=[{"on": "open_in", "nth": rf["nth"], "kind": "error", "errno": rf["errno"]}])
         after = w.snapshot()
-    if faulted is not None and faulted.fired:
-        bump("read_fault_fired")
-        events += len(faulted.events)
-        if faulted.exit == 0 and not faulted.exc:
-            bump("read_fault_survived")
-            if faulted.stdout != res[plan["read_fault"]["mode"]].stdout:
-                vio.append(V("answer-under-read-fault", "%s exits 0 while opening a PEL failed with %s, but its answer differs from the "
-                             "undisturbed one: %r vs %r" % (faulted.argv, plan["read_fault"]["errno"], faulted.stdout[:300],
-                                                            res[plan["read_fault"]["mode"]].stdout[:300])))
     for k, r in res.items():
         events += len(r.events)
         h.update(r.digest.encode())
